@@ -184,8 +184,11 @@ def ensure_tools():
 def probe_copy_sites():
     """(Tool._merged_args copies the dict it is given, set_conf() copies cherrypy.config) measured on the live
     code; True when the probe cannot tell (the differential run decides then)."""
-    cherrypy = T.cp()
     merged = setconf = True
+    try:
+        cherrypy = T.cp()
+    except Exception:
+        return merged, setconf
     try:
         class FakeRequest:
             toolmaps = {'tools': {'c08probe': {'on': True, 'b': 2}}}
@@ -686,7 +689,17 @@ def check_config_cases(ctx, cases, compare_model=True):
         if len(ctx.oracle_failures) >= 150:
             ctx.note('config cases stopped after %d oracle failures' % len(ctx.oracle_failures))
             break
-        built, runner, obs = run_config_case(case)
+        try:
+            built, runner, obs = run_config_case(case)
+        except common.HarnessError:
+            raise
+        except Exception as e:
+            if not H.raised_in_code_under_test(e):
+                raise
+            ctx.case(case, nontrivial=True)
+            ctx.oracle_fail(dict(case, reqs=case['reqs'][:1]), 'building the tree, updating the global config or mounting the '
+                            'application raised %s: %s' % (type(e).__name__, e), 'config_load_raised')
+            continue
         reqs = case['reqs']
         for node, name, conf, f in built.config_by_decorator:
             if getattr(f, '_cp_config', None) != conf:
@@ -817,8 +830,13 @@ def check_fc_cases(ctx, cases, compare_model=True):
     got = []
     for case in cases:
         fc = case['fc']
-        app = cherrypy.Application(None, '', {k: dict(v) for k, v in fc['sections'].items()})
-        v = app.find_config(fc['path'], fc['key'], fc['default'])
+        try:
+            app = cherrypy.Application(None, '', {k: dict(v) for k, v in fc['sections'].items()})
+            v = app.find_config(fc['path'], fc['key'], fc['default'])
+        except Exception as e:
+            if not H.raised_in_code_under_test(e):
+                raise
+            v = 'raised:' + type(e).__name__
         got.append(v)
         nontriv = any(fc['key'] in c for c in fc['sections'].values())
         ctx.case(case, nontrivial=nontriv, key=json.dumps(fc, sort_keys=True))
@@ -1646,6 +1664,7 @@ def _worker(args):
     sub = common.Ctx(__import__('harness.c08', fromlist=['x']), 'thorough', seed)
     sub.rng = random.Random(seed)
     sub.lean = _WORKER_LEAN[0]
+    safe_init(sub)
     COV.start()
     check_config_cases(sub, [gen_config_case(sub.rng, i) for i in range(n)])
     H.check_hist_cases(sub, [H.gen_hist_case(sub.rng, i) for i in range(n // 4)])
@@ -1699,7 +1718,36 @@ def _worker_enum(args):
     return _export(sub)
 
 
+def safe_init(ctx):
+    """The process-wide set-up (`cherrypy.config.update({'environment': 'test_suite', 'log.screen': False})`) is itself a
+    valid global config update going through the code under test: if it raises, that is an observation, and the run
+    goes on with the entries written into the global config directly."""
+    if T._INIT[0]:
+        return
+    try:
+        T.cp()
+        return
+    except common.HarnessError:
+        raise
+    except Exception as e:
+        if not H.raised_in_code_under_test(e):
+            raise
+        import cherrypy
+        conf = {'environment': 'test_suite', 'log.screen': False}
+        ctx.oracle_fail({'upd': {'steps': [{'conf': conf, 'form': 'dict', 'other': {}}]}},
+                        'cherrypy.config.update(%r) raised %s: %s' % (conf, type(e).__name__, e), 'config_load_raised')
+        full = dict(cherrypy._cpconfig.environments.get('test_suite', {}))
+        full.update(conf)
+        dict.update(cherrypy.config, full)
+        try:
+            cherrypy.log.screen = False
+        except Exception:
+            pass
+        T._INIT[0] = True
+
+
 def run(ctx):
+    safe_init(ctx)
     cov = COV.start()
     try:
         _run(ctx, cov)
@@ -1740,6 +1788,7 @@ def _run(ctx, cov):
 
 
 def search(ctx, around=None):
+    safe_init(ctx)
     if around is not None and 'tree' in around:
         case = dict(around)
         spec = case['tree']
@@ -1758,6 +1807,7 @@ def search(ctx, around=None):
 
 
 def replay(ctx, case):
+    safe_init(ctx)
     if 'hist' in case:
         H.replay(ctx, case)
         return
